@@ -167,6 +167,10 @@ func c16AttrList(e *Env) {
 	if parse(list.Stdout) != parse(gen.Stdout) {
 		fail("C16/attr-list/listed-differs-from-generated", "`crd info attr list` is not what `crd gen attr -d 20` generates")
 	}
+	// ... and what the command generates when it is simply run (its own default bound)
+	if plain := cli.In("", "gen", "attr"); !plain.OK() || parse(file) != parse(plain.Stdout) {
+		fail("C16/attr-list/embedded-differs-from-generated", "chord/attribute.yml is not what plain `crd gen attr` generates: "+firstLine(plain.Stderr))
+	}
 	// every attribute name denotes the interval its English name says (embedded data, read by the implementation)
 	for _, a := range chord.BasicAttributes() {
 		want, ok := dict.AttributeByEnglishName(a.Name)
